@@ -32,8 +32,8 @@ Inductive spred :=
 | SFalse                                     (* WHERE false *)
 | SAnd (p q : spred) | SOr (p q : spred).
 Inductive join :=
-| JRel (src : nat) (a : Z) (tgt : Z)         (* JOIN <alias of tgt> ON alias.database_id = src.a *)
-| JCross (c : Z)                             (* an unaliased table that is only mentioned: implicit cross join *)
+| JRel (o : bool) (src : nat) (a : Z) (tgt : Z)   (* [LEFT OUTER] JOIN <alias of tgt> ON alias.database_id = src.a *)
+| JCross (o : bool) (c : Z)                  (* [LEFT OUTER] JOIN c ON true *)
 | JEq (tgt : Z) (tfk : Z) (anchor : nat) (afk : Z).   (* JOIN tgt ON tgt.tfk = anchor.afk *)
 Record sql := { s_root : Z; s_joins : list join; s_where : option spred; s_invalid : bool }.
 
@@ -98,10 +98,14 @@ Fixpoint eval_pred (env : list row) (p : spred) : tv :=
   | SOr p q => tv_or (eval_pred env p) (eval_pred env q)
   end.
 
+(* LEFT OUTER JOIN: a row without partner is kept once, with NULL in every column of the joined table *)
+Definition null_row : row := {| r_id := 0; r_cols := [] |}.
+Definition outer_rows (o : bool) (m : list row) : list row :=
+  if o then match m with [] => [null_row] | _ :: _ => m end else m.
 Definition join_rows (d : db) (env : list row) (j : join) : list row :=
   match j with
-  | JRel src a tgt => filter (fun r => tv_true (sql_eq (VInt (r_id r)) (ecol env src a))) (d tgt)
-  | JCross c => d c
+  | JRel o src a tgt => outer_rows o (filter (fun r => tv_true (sql_eq (VInt (r_id r)) (ecol env src a))) (d tgt))
+  | JCross o c => outer_rows o (d c)
   | JEq tgt tfk anchor afk => filter (fun r => tv_true (sql_eq (col r tfk) (ecol env anchor afk))) (d tgt)
   end.
 Fixpoint envs_of (d : db) (js : list join) (envs : list (list row)) : list (list row) :=
